@@ -234,7 +234,8 @@ def execute(case) -> Outcome:
         out.label(f"value:method={plan['method']},reindex={plan['reindex']}")
         if plan.get("by_dask"):
             out.label("by_dask")
-        compare_results(out, func, arr.dtype, e.value, c.value, pl, mask)
+        allmissing = by.dtype.kind == "f" and bool(np.isnan(by).all())
+        compare_results(out, func, arr.dtype, e.value, c.value, pl, mask, sigextra=("all-labels-missing",) if allmissing else ())
     return out
 
 
